@@ -63,7 +63,8 @@ def load_contracts(src):
         _lza.register_lazyarray(src)
         import contracts.lazylemmas as _lzl
         _lzl.make(src)
-        import contracts.foldlemmas  # noqa  (lemmas over the Array folds; needs the fold definitions registered above)
+        import contracts.foldlemmas as _fl  # lemmas over the Array / Sequence folds; needs the fold definitions registered above
+        _fl.install(src)
     import contracts.classes as cc
     gens = cc.generic_contracts(src)
     from contracts.prims import LOOPS
